@@ -602,7 +602,7 @@ func checkSanitised(sc *bw.Scenario, w *world, cl *closure, res *vresult, out *s
 				switch {
 				case err != nil:
 					cls = "loop"
-				case !simkit.Under(resd, pdir):
+				case !simkit.Under(resd, physOf(pdir)):
 					cls = "leaves-package"
 					if strings.Contains(n.Target, ".tmp-") {
 						cls = "names-temp-dir"
@@ -987,4 +987,13 @@ func lookupTable(sc *bw.Scenario, cl *closure, res *vresult) []string {
 	}
 	sort.Strings(t)
 	return t
+}
+
+// physOf is the physical spelling of an existing path (the target directory
+// may be named by way of a link).
+func physOf(p string) string {
+	if q, _, err := simkit.ResolvePhysical(p); err == nil {
+		return q
+	}
+	return p
 }
